@@ -11,6 +11,7 @@ import (
 	"net/http"
 	"net/url"
 	"strings"
+	"sync"
 
 	"github.com/beevik/etree"
 	"github.com/crewjam/saml"
@@ -572,6 +573,12 @@ func (c *Ctx) middlewareOutstanding() {
 			w.deliver(f.id+"x", true, copyJar(w.jar), f.index, "extension-of-outstanding-id")
 			w.deliver(f.id, true, map[string]string{}, f.index, "no-cookies")
 		}
+		// a session token of this SP (same key, audience and issuer as a tracking token, but no request ID) presented as a
+		// tracking cookie: it names no outstanding request, so an unsolicited response stays unsolicited
+		sess := c.sign("RS256", jwtClaims{Aud: w.root, Iss: w.root, Sub: "sessidx", Exp: w.now.Add(time.Minute).Unix(), Iat: w.now.Unix(), Nbf: w.now.Unix(), SamlSession: true}, "sp")
+		w.abs[sess.raw] = sess
+		w.deliver("", true, map[string]string{"saml_sessidx": sess.raw}, "sessidx", "session-token-as-tracker-unsolicited")
+		w.deliver("", true, map[string]string{"saml_sessidx": sess.raw}, "", "session-token-as-tracker-unsolicited-no-relay")
 		for _, f := range w.flows {
 			w.deliver(f.id, true, copyJar(w.jar), f.index, "faithful")
 		}
@@ -673,4 +680,79 @@ func (c *Ctx) pick2(a, b int) int {
 		return a
 	}
 	return b
+}
+
+// concurrentParses: one ServiceProvider value used from several goroutines at once, as a server does. Genuine messages
+// (IdP-signed assertion for user NN) and forgeries made from them by same-length edits (as a whole Response, and as a bare
+// Assertion document) are first judged one at a time; then eight goroutines parse them in random order and every verdict
+// must be the one-at-a-time verdict. A forged identity that comes back accepted is a signature-wrapping success by other means.
+func (c *Ctx) concurrentParses(rounds int) {
+	now := ms(baseTime)
+	cfg := baseCfg()
+	setGlobals(cfg, now)
+	b := &builder{c: c, spCert: c.key("sp").Cert, badCert: c.key("sp2").Cert}
+	type msg struct {
+		kind string
+		xml  []byte
+		want string
+	}
+	var msgs []msg
+	for i := 0; i < 6; i++ {
+		r := baseResp(cfg, now)
+		r.Entries[0].Ident = fmt.Sprintf("user%02d", i)
+		if i%2 == 1 {
+			r.Sig, r.Entries[0].Sig = "idp", "none"
+		}
+		el := b.responseEl(r)
+		genuine := elBytes(el)
+		msgs = append(msgs, msg{kind: "genuine", xml: genuine})
+		forged := bytes.ReplaceAll(genuine, []byte(fmt.Sprintf("user%02d", i)), []byte(fmt.Sprintf("evil%02d", i)))
+		msgs = append(msgs, msg{kind: "forged-response", xml: forged})
+		if a := el.FindElement("./Assertion"); a != nil {
+			bare := a.Copy()
+			bare.CreateAttr("xmlns:saml", "urn:oasis:names:tc:SAML:2.0:assertion")
+			bare.CreateAttr("xmlns:samlp", "urn:oasis:names:tc:SAML:2.0:protocol")
+			msgs = append(msgs, msg{kind: "forged-bare-assertion", xml: bytes.ReplaceAll(elBytes(bare), []byte(fmt.Sprintf("user%02d", i)), []byte(fmt.Sprintf("evil%02d", i)))})
+		}
+	}
+	s := c.realSP(cfg)
+	parse := func(m msg) string {
+		return safely(func() string { return canonParse(s.ParseXMLResponse(m.xml, []string{"id-req1"}, mustURL(cfg.Acs))) })
+	}
+	why := ""
+	for i := range msgs {
+		msgs[i].want = parse(msgs[i])
+		ok := strings.HasPrefix(msgs[i].want, "ok ")
+		if (msgs[i].kind == "genuine") != ok && why == "" {
+			why = fmt.Sprintf("key=c01-concurrent:baseline a %s message is judged %s one at a time", msgs[i].kind, msgs[i].want)
+		}
+	}
+	var mu sync.Mutex
+	var wg sync.WaitGroup
+	total := 0
+	for g := 0; g < 8; g++ {
+		wg.Add(1)
+		seed := c.rng.Int63()
+		go func() {
+			defer wg.Done()
+			rng := newRand(seed)
+			for k := 0; k < rounds; k++ {
+				m := msgs[rng.Intn(len(msgs))]
+				got := parse(m)
+				mu.Lock()
+				total++
+				if got != m.want && why == "" {
+					tag := "divergence"
+					if strings.HasPrefix(got, "ok ") && strings.Contains(got, "evil") {
+						tag = "forged-identity-accepted"
+					}
+					why = fmt.Sprintf("key=c01-concurrent:%s a %s message judged %q one at a time was judged %q while other messages were being parsed concurrently on the same ServiceProvider", tag, m.kind, m.want, got)
+				}
+				mu.Unlock()
+			}
+		}()
+	}
+	wg.Wait()
+	c.count("c01-concurrent-parses", fmt.Sprint(total))
+	c.emitOneWay("concurrent", []string{fmt.Sprint(len(msgs))}, "done", why)
 }
